@@ -117,10 +117,20 @@ def enum_specs(level):
     # three members
     seconds = [None, "@0 + 2", "-1", "@0 * 2", "@0", "(@0)", "-@0"]
     thirds = [None] + [e for e in exprs(["@0", "@1"], 1) if "@" in e][:: (1 if level >= 2 else 3)] + ["7", "-7", "(1)"]
-    for f in ([None, "2", "-2"] if level >= 2 else [None, "2"]):
+    for f in ([None, "2", "-2", "1 + 1", "(2)"] if level >= 2 else [None, "2", "1 + 1"]):
         for s in seconds:
             for t in thirds:
                 specs.append([f, s, t])
+    # four and five members: every mix of implicit / literal / expression-valued members, so that the
+    # running "last explicit value + offset" state of the emitters is exercised across several resets
+    kinds = [lambda i: None, lambda i: str(3 * i + 1), lambda i: ("@%d + 1" % (i - 1)) if i else "1 + 1",
+             lambda i: ("@%d * 2" % (i - 1)) if i else "(2)", lambda i: ("-(@0 + %d)" % i) if i else "-(3)"]
+    for n in ((4, 5) if level >= 2 else (4,)):
+        ks = kinds if n == 4 else kinds[:4]
+        for combo in itertools.product(range(len(ks)), repeat=n):
+            if level < 2 and n == 4 and sum(1 for c in combo if c >= 2) < 2:
+                continue  # quick: at least two expression-valued members
+            specs.append([ks[c](i) for i, c in enumerate(combo)])
     return specs
 
 
@@ -149,7 +159,7 @@ def build_library(specs, scope, scoped, base_index):
     for i, spec in enumerate(specs):
         k = base_index + i
         ename = "E%d" % k
-        names = ["%s_%s" % (ename, "abc"[j]) for j in range(len(spec))]
+        names = ["%s_%s" % (ename, "abcde"[j]) for j in range(len(spec))]
         body = []
         sp2 = []
         for nm, txt in zip(names, spec):
@@ -268,7 +278,7 @@ def library_case(args):
         mm = re.search(r"^module (\w+)", text, re.M)
         modnames.append(mm.group(1))
         for m in re.finditer(r"parameter :: (\w+) =", text):
-            mk = re.search(r"e(\d+)_([abc])$", m.group(1))
+            mk = re.search(r"e(\d+)_([abcde])$", m.group(1))
             if mk:
                 f_members.setdefault(int(mk.group(1)), []).append(m.group(1))
     lines = ["program p"] + ["  use %s" % m for m in modnames] + ["  implicit none"]
@@ -287,7 +297,7 @@ def library_case(args):
             ok = False
             hl = open(os.path.join(out, f)).read().split("\n")
             for m in re.finditer(r"\.f:(\d+):\d+:\s*\n\n\s*\d+ \|(.*)\n[^\n]*\n(Error: [^\n]*)", se):
-                mk = re.findall(r"e(\d+)_[abc] =", m.group(2))
+                mk = re.findall(r"e(\d+)_[abcde] =", m.group(2))
                 if mk:
                     f_bad.setdefault(int(mk[0]), "generated Fortran module does not compile: %s  [%s]" % (m.group(3), m.group(2).strip()))
             if not f_bad:
